@@ -46,7 +46,7 @@ cls(
     callbacks={"send": Callback(name="send", effect="yields", record="sent")},
     inv=[
         # C06.serial: a new request can only be parsed (client IDLE) when no stream is attached
-        ("C06.serial", "implies(isinstance(self.connection, h11.Connection) and self.connection.their_state is h11.IDLE, self.stream is None)", "C06,C03"),
+        ("C06.serial", "implies(isinstance(self.connection, h11.Connection) and self.connection.their_state is h11.IDLE, self.stream is None)", "C06,C03,C01"),
         ("C18.ka.count", "self.keep_alive_requests >= 0", "C18"),
         ("H11.inv.can_read-clearable", "not self.can_read.g_sticky", "C06"),
     ],
